@@ -12,7 +12,7 @@ print(f"""You are testing how robust a Python library is against subtle regressi
 How to run things: always with the worktree as current directory, e.g.
   cd {wt} && /venv/bin/python -m pytest -q -p no:cacheprovider        (192 tests pass on the clean tree, ~8 s)
   cd {wt} && /venv/bin/python {out}/m1/demo.py
-With the worktree as cwd, `import asyncfix` resolves to the worktree's copy. There is no network.
+IMPORTANT: a script run by path picks up the INSTALLED asyncfix (another checkout), not the worktree - every demo.py must start with `import os, sys; sys.path.insert(0, os.getcwd())` so that with the worktree as cwd `import asyncfix` resolves to the worktree copy (pytest run from the worktree already does). There is no network.
 
 The semantic property you attack ({pid}: {p['title']}):
   {p['statement']}
@@ -27,7 +27,7 @@ Your task: produce {n} different, independent source changes to the library (fil
 
 For each change k = 1..{n} create the directory {out}/m<k>/ containing:
   patch.diff  - `git diff` of the change against the clean worktree (library sources only)
-  demo.py     - a small standalone program (plain python, asyncio allowed, mocks allowed; run as `cd {wt} && /venv/bin/python {out}/m<k>/demo.py`) that exits 0 on the CLEAN tree and exits non-zero (assertion failure) on the tree WITH the change. The clean library has some pre-existing defects; pick a scenario where the clean tree behaves correctly. Verify both outcomes yourself (use `git stash` / `git checkout -- .` to switch).
+  demo.py     - a small standalone program (plain python, asyncio allowed, mocks allowed; run as `cd {wt} && /venv/bin/python {out}/m<k>/demo.py`) that exits 0 on the CLEAN tree and exits non-zero (assertion failure) on the tree WITH the change. The clean library has some pre-existing defects; pick a scenario where the clean tree behaves correctly. Verify both outcomes yourself. NEVER use `git stash` (the stash is shared between worktrees and other people work in sibling worktrees): save your change with `git diff > patch.diff`, return to the clean tree with `git checkout -- .`, and re-apply with `git apply patch.diff`.
   meta.json   - {{"property": "{pid}", "summary": "<what was changed>", "needs": "<what specific input/sequence/schedule is needed to manifest>", "files": [...], "ran": ["<commands you ran and their outcome>"]}}
 
 Each patch must be made against the clean tree (reset with `git checkout -- .` between changes) and the worktree must be clean when you finish. In your final answer list, for each change: one line on what it does, and the confirmed outcomes (suite passes with change: yes/no; demo clean: exit code; demo with change: exit code).""")
